@@ -54,10 +54,10 @@ def _heapish(o):
 
 
 class Run:
-    def __init__(self, prop, cfg, oracles, record=True, trace=None):
+    def __init__(self, prop, cfg, oracles, record=True, trace=None, fs=None):
         self.prop = prop
         self.cfg = cfg
-        self.world = World()
+        self.world = World(fs)
         self.oracles = oracles
         self.steps = []
         self.record = record
